@@ -117,11 +117,66 @@ pub fn check_triple(y: i32, m: u32, d: u32) -> Result<bool, String> {
     }
 }
 
+/// The same triple written as text ("YYYY-MM-DD", fields 0..=9999 / 0..=99 / 0..=99) and read by
+/// the parse entry point of Date (which = 0), Timestamp (1) or OracleDate (2): accepted exactly
+/// when it names a date (then: that date, at midnight), otherwise with an error kind that matches
+/// a bad field - the same rule as for `try_from_ymd`.
+pub fn check_triple_parsed(which: u8, y: i32, m: u32, d: u32) -> Result<bool, String> {
+    use sqldatetime::{OracleDate, Timestamp};
+    let c = cal();
+    let expect = c.lookup(y as i64, m as i64, d as i64);
+    let (text, pic) = if which / 3 == 0 { (format!("{y:04}-{m:02}-{d:02}"), "YYYY-MM-DD") } else { (format!("{d}.{m}.{y} 10:20:30"), "DD.MM.YYYY HH24:MI:SS") };
+    let extra = if which / 3 == 0 { 0i128 } else { 37_230_000_000 };
+    let name = ["Date", "Timestamp", "OracleDate"][which as usize % 3];
+    let res: Result<i128, Error> = guarded(|| match which % 3 {
+        0 => Date::parse(&text, pic).map(|x| x.days() as i128 * 86_400_000_000 + extra),
+        1 => Timestamp::parse(&text, pic).map(|x| x.usecs() as i128),
+        _ => OracleDate::parse(&text, pic).map(|x| x.usecs() as i128),
+    })
+    .map_err(|p| format!("{name}::parse({text:?}, {pic:?}): {p}"))?;
+    if which % 3 == 0 && which / 3 != 0 {
+        // a time-bearing picture does not apply to the plain date: any error
+        return match res {
+            Err(_) => Ok(false),
+            Ok(x) => Err(format!("Date::parse({text:?}, {pic:?}) = Ok({x}) although the picture has time fields")),
+        };
+    }
+    match (expect, res) {
+        (Some(n), Ok(x)) => {
+            if x != n as i128 * 86_400_000_000 + extra {
+                return Err(format!("{name}::parse({text:?}, {pic:?}) = {x} us, the calendar walk says day {n}"));
+            }
+            Ok(true)
+        }
+        (Some(n), Err(e)) => Err(format!("{name}::parse({text:?}, {pic:?}) = Err({e:?}) for a real date (day {n})")),
+        (None, Ok(x)) => Err(format!("{name}::parse({text:?}, {pic:?}) accepted a triple that names no date in years 1..9999 ({x} us)")),
+        (None, Err(e)) => {
+            let year_bad = !(1..=9999).contains(&y);
+            let month_bad = !(1..=12).contains(&m);
+            let day_bad = !(1..=31).contains(&d);
+            let date_bad = !year_bad && !month_bad && !day_bad;
+            let ok = match e {
+                Error::DateOutOfRange => year_bad,
+                Error::InvalidMonth => month_bad,
+                Error::InvalidDay => day_bad,
+                Error::InvalidDate => date_bad,
+                _ => false,
+            };
+            if ok {
+                Ok(false)
+            } else {
+                Err(format!("{name}::parse({text:?}, {pic:?}) = Err({e:?}), which does not match any bad field of the triple (year bad={year_bad}, month bad={month_bad}, day bad={day_bad}, not-valid-for-month={date_bad})"))
+            }
+        }
+    }
+}
+
 pub fn eval(case: &Case) -> Verdict {
     let r = match case.kind.as_str() {
         "day" => check_day(case.i[0] as i32),
         "out_of_range" => check_out_of_range(case.i[0] as i32),
         "triple" => check_triple(case.i[0] as i32, case.i[1] as u32, case.i[2] as u32).map(|_| ()),
+        "triple_parsed" => check_triple_parsed(case.i[0] as u8, case.i[1] as i32, case.i[2] as u32, case.i[3] as u32).map(|_| ()),
         k => Err(format!("unknown case kind {k}")),
     };
     match r {
@@ -310,8 +365,41 @@ pub fn run(ctx: &Ctx) -> (Stats, Report) {
     }
     st.section("bit_pattern_triples", &mut mark);
 
+    // E: the triple written as text and read through the parse entry points of the three
+    // date-bearing types (their validators are separate code): years 0..=9999 x months 0..=14,
+    // 99 x days 0..=33, 99
+    let pm: Vec<u32> = (0..=14).chain([20, 99]).collect();
+    let pd: Vec<u32> = (0..=33).chain([40, 99]).collect();
+    let g = par_sweep(10_000, 16, |range, st| {
+        for y in range {
+            let y = y as i32;
+            for &m in &pm {
+                for &d in &pd {
+                    // two pictures x three types, rotated so that every (month, day) pair meets each of them on every 6th year
+                    for which in [((y as u32 + m + d) % 6) as u8, ((y as u32 + m + d + 1) % 6) as u8] {
+                        st.evaluations += 1;
+                        match check_triple_parsed(which, y, m, d) {
+                            Ok(true) => st.class("parsed-triple-accepted"),
+                            Ok(false) => {
+                                st.class("parsed-triple-rejected");
+                                st.nontrivial_enum += 1;
+                            }
+                            Err(msg) => {
+                                st.fail(y as u64, Case::new(P, "triple_parsed", vec![which as i128, y as i128, m as i128, d as i128], vec![]), msg);
+                                return;
+                            }
+                        }
+                    }
+                }
+            }
+        }
+    });
+    st.merge(g);
+    st.exhaustive_sections.push("triples as text through Date / Timestamp / OracleDate parse: years 0..=9999 x 17 months x 36 days".into());
+    st.section("triples_through_parse", &mut mark);
+
     let rep = Report {
-        rule: "Exhaustive enumeration (both tiers): every in-range day number (Date::try_from_days/extract/accessors/try_from_ymd/is_valid/day_of_week/ordering vs. an independently *walked* calendar), out-of-range day numbers, and the (year, month, day) grid years -1..=10001+extremes x months 0..=14+extremes x days 0..=33+extremes. Non-trivial = month end, 28/29 Feb, century year, before 1583, within 7 days of a range end, an out-of-range number, or a rejected triple; all distinct by enumeration.".into(),
+        rule: "Exhaustive enumeration (both tiers): every in-range day number (Date::try_from_days/extract/accessors/try_from_ymd/is_valid/day_of_week/ordering vs. an independently *walked* calendar), out-of-range day numbers, and the (year, month, day) grid years -1..=10001+extremes x months 0..=14+extremes x days 0..=33+extremes; bit-pattern months and days; the same triples as text through the parse entry points of Date, Timestamp and OracleDate (separate validators) with the same acceptance and error-kind rule. Non-trivial = month end, 28/29 Feb, century year, before 1583, within 7 days of a range end, an out-of-range number, or a rejected triple; all distinct by enumeration.".into(),
         assumptions: vec![
             "the reference calendar is produced by stepping one day at a time with the month lengths and leap rule of the statement, anchored at 1970-01-01 = day 0 = Thursday".into(),
             "for a triple with several bad fields any error kind that matches one of the bad fields is accepted (the statement does not order them)".into(),
